@@ -64,6 +64,21 @@ CORPUS: list[dict] = [
      "ops": [["sim", "1/1024", 1], ["ptc", [["1", {"k": "2"}]], ["1/2", "1"], True]]},
     {"mode": "scipy", "y0": ["2", "1"], "p0": ["1", "1/2"],
      "ops": [["sim", "1/1024", 1], ["ptc", [["1", {"k": "2"}]], ["1/2", "1"], True]]},
+    # steps that are the same kind of mapping written in DIFFERENT KEY ORDERS (seeded/C14-8: rows of the table built from
+    # list(pars.values()) under the first step's key order): the demo's shape with dyadic numbers, both protocol forms,
+    # exact stand-in and real scipy; a continued simulator; three parameters rotated
+    {"mode": "exact", "y0": ["1", "1"], "p0": ["1", "0", "0", "0"],
+     "ops": [["prot", [["1", {"k": "2", "c": "1/2"}], ["1/2", {"c": "3", "k": "1/4"}]], 1]]},
+    {"mode": "exact", "y0": ["1", "1"], "p0": ["1", "0", "0", "0"],
+     "ops": [["ptc", [["1", {"k": "2", "c": "1/2"}], ["1/2", {"c": "3", "k": "1/4"}], ["2", {"k": "4", "c": "1"}], ["3/2", {"c": "1/8", "k": "3"}]],
+              ["1/2", "5/4", "3", "4", "5"], False]]},
+    {"mode": "scipy", "y0": ["2", "1"], "p0": ["1", "1/2"],
+     "ops": [["prot", [["1", {"k": "2", "c": "1/2"}], ["1/2", {"c": "3", "k": "1/4"}], ["2", {"k": "4", "c": "1"}], ["3/2", {"c": "1/8", "k": "3"}]], 1]]},
+    {"mode": "scipy", "y0": ["2", "1"], "p0": ["1", "1/2"],
+     "ops": [["sim", "2", 2], ["ptc", [["1", {"c": "1", "k": "1/4"}], ["1", {"k": "2", "c": "0"}]], ["1/2", "1", "3/2", "2"], True]]},
+    {"mode": "exact", "y0": ["1", "1"], "p0": ["1", "1/2", "0", "0"],
+     "ops": [["sim", "2", 2], ["updvar", {"y": "0"}],
+             ["prot", [["1", {"a": "1", "k": "2", "c": "1/2"}], ["2", {"k": "1/2", "c": "1", "a": "0"}], ["1/2", {"c": "0", "a": "1/2", "k": "4"}]], 2]]},
 ]
 
 
@@ -183,6 +198,10 @@ def histories(run: Run) -> list[dict]:
     rng_late = common.rng_for(run.seed, "c14-late")
     for j in range(450 if thorough else 72):
         hs.append(S.gen_late_switch(rng_late, "exact" if j % 3 else "scipy"))
+    # steps written in different key orders -- own stream again
+    rng_keys = common.rng_for(run.seed, "c14-keys")
+    for j in range(360 if thorough else 60):
+        hs.append(S.gen_key_order(rng_keys, "exact" if j % 3 else "scipy"))
     return [h for h in hs if any(op[0] in ("prot", "ptc") for op in h["ops"])]
 
 
@@ -199,7 +218,9 @@ def check(run: Run) -> None:
         "each call and each call's axis is judged; a family of protocol time courses late in absolute time (simulator continued at "
         "t = 512..4096, or steps lasting 512..2048) whose grids hold points 2^-7..2^-9 after the START of a step (the protocol's start or "
         "an inner boundary), the boundary itself, points just before it: the row boundary + gap must exist and hold the solution after "
-        "`gap` under the new step's values; non-trivial = >= 2 steps or a continued simulator; distinct by content"
+        "`gap` under the new step's values; a family of protocols over two or three parameters whose steps are the same kind of "
+        "mapping written in DIFFERENT KEY ORDERS ({k:.., c:..} then {c:.., k:..}; k != c inside a step): each step's mapping must "
+        "govern its interval whatever order it was written in (recorded parameters, values, fluxes, manual sequence); non-trivial = >= 2 steps or a continued simulator; distinct by content"
     )
     proofs_ok = run.check_proofs(AREA, PROPS)
     run.assumptions += S.ASSUMPTIONS
